@@ -799,8 +799,90 @@ func c10ManySignatures(w *core.W, j int) {
 	w.Count("many_signatures_with_leading_zero_half", short)
 }
 
+// c10SameTagKeys: two different keys of one zone that share owner, algorithm and key tag (RFC 4034 App. B:
+// the tag does not identify a key; here the flags of the second key are chosen so that the tags collide).
+// Each key verifies its own signatures and not the other's, in whatever order they are used.
+func c10SameTagKeys(w *core.W, j int) {
+	alg := []uint8{dns.RSASHA256, dns.ED25519, dns.RSASHA1, dns.ECDSAP256SHA256, dns.RSASHA512}[j%5]
+	zone := "same-tag.example."
+	var k1, k2 *sigKey
+	for try := 0; try < 12 && k2 == nil; try++ {
+		a, e1 := freshKey(alg, algBits[alg][0], zone, 257)
+		b, e2 := freshKey(alg, algBits[alg][0], zone, 256)
+		if e1 != nil || e2 != nil {
+			w.Inconclusive("keygen")
+			return
+		}
+		want := a.Key.KeyTag()
+		for f := 0; f < 65536; f++ {
+			if f&0x0100 == 0 {
+				continue // a zone key
+			}
+			b.Key.Flags = uint16(f)
+			if b.Key.KeyTag() == want && model.KeyTag(model.KeyRdata(uint16(f), 3, alg, mustB64(b.Key.PublicKey))) == want {
+				k1, k2 = a, b
+				break
+			}
+		}
+	}
+	if k2 == nil {
+		w.Count("same_tag_pairs_not_found", 1)
+		return
+	}
+	w.Eval(1)
+	w.Count("same_tag_key_pairs", 1)
+	rrset := func() []dns.RR {
+		return []dns.RR{&dns.A{Hdr: dns.RR_Header{Name: "host." + zone, Rrtype: 1, Class: 1, Ttl: 300}, A: []byte{192, 0, 2, byte(j)}}, &dns.A{Hdr: dns.RR_Header{Name: "host." + zone, Rrtype: 1, Class: 1, Ttl: 300}, A: []byte{192, 0, 2, 200}}}
+	}
+	sign := func(k *sigKey) *dns.RRSIG {
+		s := &dns.RRSIG{Algorithm: alg, KeyTag: k.Key.KeyTag(), SignerName: zone, Inception: 1_700_000_000, Expiration: 1_800_000_000}
+		if err := s.Sign(k.Priv, rrset()); err != nil {
+			return nil
+		}
+		return s
+	}
+	s1, s2 := sign(k1), sign(k2)
+	if s1 == nil || s2 == nil {
+		w.Violation("C10/sign-fails/same-tag-keys/"+algName(alg), "Sign failed for one of two keys with the same tag", nil)
+		return
+	}
+	wit := map[string]any{"alg": algName(alg), "tag": k1.Key.KeyTag(), "key1": k1.Key.String(), "key2": k2.Key.String()}
+	type step struct {
+		s    *dns.RRSIG
+		k    *sigKey
+		want bool
+		what string
+	}
+	steps := []step{{s1, k1, true, "sig1/key1"}, {s2, k2, true, "sig2/key2"}, {s1, k2, false, "sig1/key2"}, {s2, k1, false, "sig2/key1"}, {s1, k1, true, "sig1/key1 again"}, {s2, k2, true, "sig2/key2 again"}}
+	if j%2 == 1 {
+		steps[0], steps[1] = steps[1], steps[0]
+	}
+	for _, st := range steps {
+		var err error
+		if w.Guard("RRSIG.Verify", wit, func() { err = st.s.Verify(st.k.Key, rrset()) }) {
+			return
+		}
+		w.Eval(1)
+		if st.want && err != nil {
+			w.Violation("C10/own-signature-rejected/same-tag-keys/"+algName(alg), fmt.Sprintf("two keys of one zone share algorithm and tag %d; step %q: a key's own signature is rejected: %v", k1.Key.KeyTag(), st.what, err), wit)
+			return
+		}
+		if !st.want && err == nil {
+			w.Violation("C10/accepts-invalid/same-tag-keys/"+algName(alg), fmt.Sprintf("two keys of one zone share algorithm and tag %d; step %q: the signature of one key verifies under the other", k1.Key.KeyTag(), st.what), wit)
+			return
+		}
+	}
+	w.NontrivialStr("same-tag", fmt.Sprint(j))
+}
+
+func mustB64(s string) []byte {
+	b, _ := base64.StdEncoding.DecodeString(s)
+	return b
+}
+
 func init() {
 	plan, run := sections(section{"rrsets", tiered(360, 12000), c10Case},
+		section{"same-tag-keys", tiered(10, 200), c10SameTagKeys},
 		section{"concurrent", tiered(24, 400), func(w *core.W, j int) {
 			w.Eval(1)
 			concurrentRRSIGVerify(w, j, "C10/concurrent-verify-fails")
